@@ -138,6 +138,11 @@ pub struct World {
     pub trees: Buf,
     pub lower: Buf,
     pub alloc: Option<LLFree<'static>>,
+    /// calls go through a zone wrapper (C17); `alloc` is then None and the inner allocator is inside
+    pub zone: Option<llfree::wrapper::ZoneAlloc<'static, LLFree<'static>>>,
+    pub nvm: Option<llfree::wrapper::NvmAlloc<'static, LLFree<'static>>>,
+    /// frame numbers seen by the wrapper = logged frame + shift
+    pub shift: usize,
     /// per-frame free status at the last observation
     pub last: Vec<bool>,
     pub init_err: Option<String>,
@@ -171,6 +176,9 @@ impl World {
             trees: Buf::new(ms.trees),
             lower: Buf::new(ms.lower),
             alloc: None,
+            zone: None,
+            nvm: None,
+            shift: 0,
             last: vec![],
             init_err: None,
         };
@@ -208,6 +216,9 @@ impl World {
             trees: Buf::new(self.trees.len),
             lower: Buf::new(self.lower.len),
             alloc: None,
+            zone: None,
+            nvm: None,
+            shift: 0,
             last: vec![],
             init_err: None,
         };
@@ -229,6 +240,9 @@ impl World {
             trees: Buf::new(self.trees.len),
             lower: Buf::new(self.lower.len),
             alloc: None,
+            zone: None,
+            nvm: None,
+            shift: 0,
             last: vec![],
             init_err: None,
         };
@@ -237,7 +251,26 @@ impl World {
     }
 
     pub fn a(&self) -> &LLFree<'static> {
-        self.alloc.as_ref().unwrap()
+        if let Some(n) = &self.nvm {
+            &n.alloc.alloc
+        } else if let Some(z) = &self.zone {
+            &z.alloc
+        } else {
+            self.alloc.as_ref().unwrap()
+        }
+    }
+    pub fn has_alloc(&self) -> bool {
+        self.alloc.is_some() || self.zone.is_some() || self.nvm.is_some()
+    }
+    /// run a call on the outermost allocator (wrapper if any), frames translated by `shift`
+    pub fn exec(&self, op: &Op) -> Value {
+        if let Some(n) = &self.nvm {
+            exec_on(n, op, self.shift)
+        } else if let Some(z) = &self.zone {
+            exec_on(z, op, self.shift)
+        } else {
+            exec_on(self.a(), op, 0)
+        }
     }
     pub fn ntrees(&self) -> usize {
         self.frames.div_ceil(TF)
@@ -268,7 +301,13 @@ impl World {
     }
 
     fn obs_inner(&mut self, full: bool) -> Value {
-        let a = self.alloc.as_ref().unwrap();
+        let a = if let Some(n) = &self.nvm {
+            &n.alloc.alloc
+        } else if let Some(z) = &self.zone {
+            &z.alloc
+        } else {
+            self.alloc.as_ref().unwrap()
+        };
         let s = a.stats();
         let ts = a.tree_stats();
         let nt = self.ntrees();
@@ -391,6 +430,8 @@ pub enum Op {
     Drain,
     /// id, match class, match free, change class, op (0 none, 1 online, 2 offline)
     Change(Option<usize>, Option<u8>, usize, Option<u8>, u8),
+    /// zone wrappers only: what (0 get, 1 put) on the frame `d + 1` below the zone offset, order
+    ZBelow(u8, usize, usize),
 }
 
 pub fn opt(v: Option<usize>) -> Value {
@@ -408,6 +449,7 @@ impl Op {
             }
             Op::Put(f, o, c, s) => json!({"op":"put","frame":f,"order":o,"class":c,"slot":opt(s)}),
             Op::Drain => json!({"op":"drain"}),
+            Op::ZBelow(what, d, o) => json!({"op":"zbelow","what":what,"d":d,"order":o}),
             Op::Change(id, mc, mf, cc, op) => json!({"op":"change","id":opt(id),
                 "mclass":opt(mc.map(|c| c as usize)),"mfree":mf,
                 "cclass":opt(cc.map(|c| c as usize)),"cop":op}),
@@ -417,12 +459,24 @@ impl Op {
 
 /// Execute one call; the result is a JSON object {res, frame, rclass, msg}
 pub fn exec(a: &LLFree<'static>, op: &Op) -> Value {
+    exec_on(a, op, 0)
+}
+
+/// Execute one call on any allocator; frame arguments are shifted up by `shift`
+/// before the call and results shifted down again.
+pub fn exec_on<'a, A: Alloc<'a>>(a: &A, op: &Op, shift: usize) -> Value {
     let r = catch_unwind(AssertUnwindSafe(|| match *op {
-        Op::Get(o, c, s, t) => match a.get(t.map(FrameId), Request::new(o, Class(c), s)) {
-            Ok((f, rc)) => json!({"res":"ok","frame":f.0,"rclass":rc.0}),
+        Op::Get(o, c, s, t) => match a.get(t.map(|t| FrameId(t + shift)), Request::new(o, Class(c), s)) {
+            Ok((f, rc)) => {
+                if f.0 >= shift {
+                    json!({"res":"ok","frame":f.0 - shift,"rclass":rc.0})
+                } else {
+                    json!({"res":"ok","frame":-((shift - f.0) as i64),"rclass":rc.0})
+                }
+            }
             Err(e) => json!({"res":err_str(e)}),
         },
-        Op::Put(f, o, c, s) => match a.put(FrameId(f), Request::new(o, Class(c), s)) {
+        Op::Put(f, o, c, s) => match a.put(FrameId(f + shift), Request::new(o, Class(c), s)) {
             Ok(()) => json!({"res":"ok"}),
             Err(e) => json!({"res":err_str(e)}),
         },
@@ -447,6 +501,22 @@ pub fn exec(a: &LLFree<'static>, op: &Op) -> Value {
             match a.change_tree(m, ch) {
                 Ok(()) => json!({"res":"ok"}),
                 Err(e) => json!({"res":err_str(e)}),
+            }
+        }
+        Op::ZBelow(what, d, o) => {
+            // a frame below the zone's offset (shift > d)
+            let f = FrameId(shift - 1 - d);
+            let rq = Request::new(o, Class(0), None);
+            let before = a.stats_at(f, 0).free_frames;
+            match what {
+                0 => match a.get(Some(f), rq) {
+                    Ok(_) => json!({"res":"ok","stat":before}),
+                    Err(e) => json!({"res":err_str(e),"stat":before}),
+                },
+                _ => match a.put(f, rq) {
+                    Ok(_) => json!({"res":"ok","stat":before}),
+                    Err(e) => json!({"res":err_str(e),"stat":before}),
+                },
             }
         }
     }));
